@@ -38,6 +38,10 @@ type TimeWheel struct {
 
 	updateNotify chan time.Time
 	stopNotify   chan struct{}
+	// closed is closed by Close after the tick goroutine exited. Add waits on
+	// it too so that it neither blocks forever nor sends on a closed channel
+	// when it races with Close.
+	closed chan struct{}
 
 	dispatch func(TimeSlot)
 }
@@ -47,6 +51,7 @@ func NewTimeWheel(dispatch func(TimeSlot)) *TimeWheel {
 		slots:        list.New(),
 		stopNotify:   make(chan struct{}),
 		updateNotify: make(chan time.Time),
+		closed:       make(chan struct{}),
 		dispatch:     dispatch,
 	}
 	go tw.tick()
@@ -67,7 +72,11 @@ func (tw *TimeWheel) Add(target time.Time, value interface{}) {
 	tw.slots.PushBack(TimeSlot{Time: target, Value: value})
 	tw.slotsLock.Unlock()
 
-	tw.updateNotify <- target
+	select {
+	case tw.updateNotify <- target:
+	case <-tw.closed:
+		// Stopped after the check above; the slot is never dispatched.
+	}
 }
 
 func (tw *TimeWheel) Close() {
@@ -83,7 +92,7 @@ func (tw *TimeWheel) Close() {
 
 	tw.stopNotify = nil
 
-	close(tw.updateNotify)
+	close(tw.closed)
 }
 
 func (tw *TimeWheel) tick() {
